@@ -204,7 +204,7 @@ def barging_evidence(case, out):
                     if kb is None or kb[1] != 0 or kb[0] <= idx: continue
                     if a_done is not None and a_done < kb[0]: continue
                     sb = start_lb(tb, pb)
-                    if pb == 0 or (sb is not None and sb > idx):
+                    if pb == 0 or (sb is not None and sb >= idx):   # sb == idx: b is the signaller itself, its wait is issued right after S
                         return True
     return False
 
